@@ -3,6 +3,8 @@ package main
 import (
 	"encoding/json"
 	"fmt"
+	"strings"
+	"time"
 )
 
 func replayOther(sc, path, prop, kind, class string, raw json.RawMessage) int {
@@ -19,6 +21,60 @@ func replayOther(sc, path, prop, kind, class string, raw json.RawMessage) int {
 			return 1
 		}
 		fmt.Printf("replay %s: not reproduced\n", path)
+		return 0
+	case "parser":
+		var rp parserReplay
+		if err := json.Unmarshal(raw, &rp); err != nil {
+			fatalHarness("replay: %v", err)
+		}
+		_, pigeon := buildPigeon(sc)
+		gp := newGenParser(rp.Request.Parser, rp.Grammar, rp.Flags)
+		if strings.TrimSpace(rp.Text) != "" {
+			gp.Text = rp.Text
+		}
+		pw := buildParserWorld(sc, pigeon, []*genParser{gp}, rp.Race)
+		env := goEnv()
+		if rp.Race {
+			env = append(env, "GORACE=halt_on_error=1 exitcode=66")
+		}
+		w := &worker{bin: pw.bin, env: env}
+		defer func() {
+			if w.cmd != nil {
+				w.in.Close()
+				w.kill()
+			}
+		}()
+		resp, st, detail := pcall(w, rp.Request, 120*time.Second)
+		if st != callOK {
+			got := "driver-hang"
+			if st == callCrashed {
+				got = "driver-crash"
+				if strings.Contains(detail, "DATA RACE") {
+					got = "data-race"
+				}
+			}
+			if got == rp.Expected || strings.HasPrefix(rp.Expected, "driver-") {
+				fmt.Printf("VIOLATION property=%s replay=%s\n  reproduced: class=%s\n%s\n", prop, path, got, headTail(detail, 1500, 500))
+				return 1
+			}
+			fmt.Printf("replay %s: the child ended with %s, expected class %s\n", path, got, rp.Expected)
+			return 1
+		}
+		for _, v := range resp.Violations {
+			if v.Class == rp.Expected {
+				fmt.Printf("VIOLATION property=%s replay=%s\n  reproduced: class=%s %s\n", prop, path, v.Class, v.Msg)
+				if len(v.Detail) > 0 {
+					b, _ := json.MarshalIndent(v.Detail, "  ", " ")
+					fmt.Printf("  %s\n", b)
+				}
+				return 1
+			}
+		}
+		if len(resp.Violations) > 0 {
+			fmt.Printf("VIOLATION property=%s replay=%s\n  a different class reproduced: %s %s\n", prop, path, resp.Violations[0].Class, resp.Violations[0].Msg)
+			return 1
+		}
+		fmt.Printf("replay %s: not reproduced (%d simulated parses, no violation)\n", path, resp.Runs)
 		return 0
 	}
 	fatalHarness("replay: unknown kind %q", kind)
